@@ -10,7 +10,7 @@ import sys
 import shutil
 import tempfile
 
-CLAIMED = ['C01', 'C02', 'C04', 'C05', 'C06', 'C07', 'C08', 'C09', 'C10', 'C11', 'C12', 'C13', 'C14', 'C15', 'C16', 'C17', 'C19']
+CLAIMED = ['C01', 'C02', 'C04', 'C05', 'C06', 'C07', 'C08', 'C09', 'C10', 'C11', 'C12', 'C13', 'C14', 'C15', 'C16', 'C17', 'C18', 'C19']
 
 
 def sh(cmd, cwd=None, env=None, timeout=1800):
